@@ -28,6 +28,7 @@ def gen_cases(tier, seed):
         c["gclass"] = gen.G_CLASSES[n % 4] if n % 9 else "ones"
         c["storage"] = ["plain", "plain", "strided", "transposed", "shared-base"][n % 5]
         c["single_req"] = (n // 3) % 4 if (c["form"] == "functional" and n % 3 == 2) else None
+        c["twice"] = bool(n % 4 == 1 and c["op"] != "dropout")
         out.append(c)
         if c["op"] in ("sigmoid", "tanh", "selu", "softmax", "log_softmax", "bce_with_logits", "cross_entropy") and n % 3 == 1:
             c3 = copy.deepcopy(c); c3["a"]["vclass"] = "huge"; c3["storage"] = "plain"      # saturating magnitudes (|x| up to 800)
@@ -157,6 +158,21 @@ def run_case(ns, mon, case):
                 viol.append(V(sigbase + f":{sp['name']}:wrong-gradient", f"gradient of '{sp['name']}' differs from the finite-difference VJP (worst rel {worst:.3g})",
                               index=first, args=a, got=got.tolist() if got.size <= 32 else None,
                               want=np.where(np.isnan(want), None, want).tolist() if want.size <= 32 else None))
+    # a second backward over the same recorded op: whatever the op saved for backward must still be intact, so gradients double
+    if not viol and not case.get("kink"):
+        first = [None if (not sp["diff"] or ts[i].grad is None) else np.array(ts[i].grad.data, dtype=np.float64) for i, sp in enumerate(specs)]
+        try:
+            out.backward(ns.Tensor(g))
+            counters["second_backward_checks"] = 1
+            for i, f_ in enumerate(first):
+                if f_ is None:
+                    continue
+                g2 = np.asarray(ts[i].grad.data, dtype=np.float64)
+                if not np.allclose(g2, 2 * f_, rtol=1e-9, atol=1e-9 * max(1.0, float(np.max(np.abs(f_))) if f_.size else 1.0)):
+                    viol.append(V(sigbase + f":{specs[i]['name']}:second-backward-not-double", f"after a second backward over the same op the gradient of '{specs[i]['name']}' is not twice the first", args=a))
+                    break
+        except Exception as e:
+            viol.append(V(sigbase + ":second-backward-raises", f"a second backward over the same op raised {type(e).__name__}", error=str(e)[:200], args=a))
     mviol = []
     for v in mon.drain():
         if v["sig"].startswith("grad-dtype:") or v["sig"].startswith("release:"):
@@ -164,7 +180,7 @@ def run_case(ns, mon, case):
         else:
             mviol.append(v)
     nontrivial = (out.data.size > 1 or a.get("reduction") in ("mean", "sum")) and case["gclass"] != "ones"
-    key = (op.name, case["form"], json.dumps(a, sort_keys=True), case["gclass"], bool(case.get("kink")), case.get("storage"), case.get("single_req")) if nontrivial else None
+    key = (op.name, case["form"], json.dumps(a, sort_keys=True), case["gclass"], bool(case.get("kink")), case.get("storage"), case.get("single_req"), bool(case.get("twice"))) if nontrivial else None
     return {"key": key, "viol": viol + mviol, "counters": counters, "inconclusive": ninc,
             "cover": {"ops": [op.name], "forms": [f"{op.name}.{case['form']}"], "argclasses": [f"{op.name}:{argclass}"], "fd_modes": [mode],
                       "gclasses": [case["gclass"]], "storage": [case.get("storage", "plain")], "req_patterns": ["single" if case.get("single_req") is not None else "all"], "diff_inputs": [f"{op.name}:{sp['name']}" for sp in specs if sp["diff"]]}}
